@@ -1,15 +1,16 @@
 import os, re
 import verif as V
 
-def loom_suite(tier, seed):
-    """The litmus suite on the REAL counted pointer under loom (the crate's own cfg(loom) atomics)."""
+def loom_suite(tier, seed, only=None, expected="no unordered conflicting access, freed exactly once, no mutable access while shared"):
+    """The litmus suite on the REAL counted pointer under loom (the crate's own cfg(loom) atomics).  `only`: libtest name filter
+    (the litmus tests relevant to another property are run from that property's check with this filter)."""
     d = os.path.join(V.ROOT, "harness-loom")
     if not os.path.exists(os.path.join(d, "Cargo.lock")):
         import shutil; shutil.copy(os.path.join(V.REPO, "Cargo.lock"), os.path.join(d, "Cargo.lock"))
     env = {"RUSTFLAGS": "--cfg loom --cfg hipstr_verif", "CARGO_TARGET_DIR": os.path.join(V.CACHE, "target-loom"),
            "VERIF_LOOM_PREEMPT": "3" if tier == "quick" else "5"}
     with V.Lock("cargo-loom"):
-        rc, out = V.sh(["cargo", "test", "--release", "--offline", "--", "--test-threads", "4"], cwd=d, timeout=1500, env=env)
+        rc, out = V.sh(["cargo", "test", "--release", "--offline"] + ([only] if only else []) + ["--", "--test-threads", "4"], cwd=d, timeout=1500, env=env)
     # libtest prints "test NAME ... " and the verdict possibly on a later line (panic output is interleaved): parse the summary
     ok_tests = re.findall(r"^test (\w+) \.\.\. ok", out, re.M)
     failed = []
@@ -29,7 +30,7 @@ def loom_suite(tier, seed):
     for name in failed:
         m = re.search(r"(Causality violation[^\n]*|assertion[^\n]*failed[^\n]*|panicked at[^\n]*\n[^\n]*)", out)
         res["violations"].append({"what": "loom litmus %s on the real Smart<_, Arc>" % name, "observed": (m.group(1) if m else "test failed")[:300],
-                                  "expected": "no unordered conflicting access, freed exactly once, no mutable access while shared",
+                                  "expected": expected,
                                   "replay": "cd harness-loom && RUSTFLAGS='--cfg loom --cfg hipstr_verif' CARGO_TARGET_DIR=/verif/.cache/target-loom cargo test --release --offline %s" % name})
     return res
 
@@ -38,7 +39,7 @@ SPEC = {
     "level": "proof",
     "props": ["props/C04.vo"],
     "gen_items": ["src/smart.rs:impl Kind for Arc"],
-    "tieA_required": False,
+    "tieA_required": True,
     "props_need_gen": ["props/C04.vo"],
     "case_libs": ["theories/CasesCounter.vo"],
     "drivers": [{"driver": "counter", "profiles": ["debug", "release"]}],
@@ -51,7 +52,7 @@ SPEC = {
         "the memory model is the release/acquire fragment with fences and release sequences (no consume, no SC accesses: the code uses none); compare_exchange_weak's spurious failure is a retry",
         "thread spawn/join/channel hand-over synchronise (std); hardware/compiler reorderings are represented only through this model",
         "props/C04.v is proved against coq/gen/ArcGen.v, regenerated from src/smart.rs: a change of an ordering changes arc_proto and sound_proto arc_proto = true must still compute",
-        "if the translator cannot read impl Kind for Arc the theorem about today's protocol is not available; the loom suite then carries the check alone (noted in the evidence)",
+        "if the translator cannot read impl Kind for Arc the theorem about today's protocol is not available: the check then reports the property as no longer shown to hold (the loom suite is still run to look for a failing schedule)",
     ],
     "trusted_base": ["loom 0.7.2 as the implementation-side explorer of schedules; the ArcRA machine as the model of release/acquire (DESIGN.md section 6/C04)"],
 }
